@@ -2,6 +2,8 @@
    arbitrary value tables including ties. *)
 From Coq Require Import QArith List Bool.
 From VOPy Require Import Optimize OptimizeProofs.
+From VOPy Require Spec.
+From VOPyGen Require Gen_algos.
 Import ListNotations.
 Open Scope Q_scope.
 
@@ -36,3 +38,10 @@ Theorem C07_decoupled_is_global_topq : forall q tables sel,
   decoupled_ok q tables sel = true -> global_topq_ok q tables sel = true.
 Proof. exact decoupled_is_global_topq. Qed.
 Print Assumptions C07_decoupled_is_global_topq.
+
+(* PaVeBa (no acquisition): every round samples exactly the active designs S ∪ U, and the observations are stored
+   under the same iteration of the same set that was queried (regenerated from PaVeBa.evaluating) *)
+Theorem C07_paveba_samples_every_active_design : forall S P U,
+  Gen_algos.paveba_sampled S P U = Spec.union S U /\ Gen_algos.paveba_queries_and_stores_same_set = true.
+Proof. intros. split; reflexivity. Qed.
+Print Assumptions C07_paveba_samples_every_active_design.
